@@ -167,6 +167,52 @@ pub fn enc<G: GroupEncoding>(p: &G) -> Vec<u8> {
     p.to_bytes().as_ref().to_vec()
 }
 
+/// compressed encoding of P + T where T is a non-trivial point of the curve outside the prime order subgroup
+/// (T = [r]Q for an on-curve, non-subgroup Q found from a small x). The result is on the curve, not in the
+/// subgroup, and pairs exactly like P does.
+pub fn torsion_perturbed(point: &[u8]) -> Option<Vec<u8>> {
+    let r_minus_1 = -Scalar::ONE;
+    match point.len() {
+        48 => {
+            let p = g1_from(point)?;
+            for x in 1u32..200 {
+                let mut b = [0u8; 48];
+                b[44..].copy_from_slice(&x.to_be_bytes());
+                b[0] |= 0x80;
+                if let Some(q) = Option::<G1Affine>::from(G1Affine::from_compressed_unchecked(&b)) {
+                    if !bool::from(q.is_torsion_free()) {
+                        let q = G1Projective::from(q);
+                        let t = q * r_minus_1 + q;
+                        if !bool::from(t.is_identity()) {
+                            return Some((p + t).to_affine().to_compressed().to_vec());
+                        }
+                    }
+                }
+            }
+            None
+        }
+        96 => {
+            let p = g2_from(point)?;
+            for x in 1u32..200 {
+                let mut b = [0u8; 96];
+                b[92..].copy_from_slice(&x.to_be_bytes());
+                b[0] |= 0x80;
+                if let Some(q) = Option::<G2Affine>::from(G2Affine::from_compressed_unchecked(&b)) {
+                    if !bool::from(q.is_torsion_free()) {
+                        let q = G2Projective::from(q);
+                        let t = q * r_minus_1 + q;
+                        if !bool::from(t.is_identity()) {
+                            return Some((p + t).to_affine().to_compressed().to_vec());
+                        }
+                    }
+                }
+            }
+            None
+        }
+        _ => None,
+    }
+}
+
 // ---- scalars ---------------------------------------------------------------------------------
 
 pub fn scalar_from_be(b: &[u8]) -> Option<Scalar> {
